@@ -428,6 +428,12 @@ async fn run(input: RunInput, mode: Mode) -> RunOutput {
                 let new_since = slots[i].subs[0].history[mark..].iter().any(|e| matches!(&e.ev, PeerEvent::NewPeer(p) if *p == ids[j]));
                 if !new_since {
                     w.check(rr.is_err(), "rpc-succeeds-after-disconnect", "rpc", || format!("n{i}>n{j} succeeded after disconnect without a new connection"));
+                } else if was_listed && !faulty && !crashed && silent_death.is_none() {
+                    // a new connection - but nobody dialed: every dial of the history has returned
+                    // before this operation began, n{i} listed n{j} (so the pair was connected at
+                    // both ends) and nothing in the table makes anybody dial on its own. An RPC
+                    // does not establish connections
+                    w.check(rr.is_err(), "rpc-succeeds-after-disconnect", "rpc-established-a-connection", || format!("n{i}>n{j} succeeded right after n{i} disconnected n{j}, over a connection that appeared although nobody dialed"));
                 }
             }
         } else if kind < 58 && !faulty && silent_death.is_none() && w.now_ms() > 500 {
